@@ -12,6 +12,7 @@ import re
 from pathlib import Path
 
 import cattrs
+from typing import Union
 
 import lane_disp as L
 from common import Verdict, parse_coq_value, run_cases_file
@@ -290,6 +291,28 @@ def check_c07(v: Verdict, t1_summary, n_cases, max_ops):
                         hist["nested"] += 1
                         hist["nested_after_reregistration"] = hist.get("nested_after_reregistration", 0) + rnd
                         probes.append((("probe", 0, d, pool.tid(t), True), x, len(r.history[0]), False))
+        # the same for registrations that go through the predicate list: a predicate hook (t is A / t in (int, str) / is a NewType /
+        # t == Union[int, str]) and a hook registered for a NewType or a union, after a container of the type was already in use
+        if ci % 2 == 1:
+            import lane_disp as _LD
+            targets = [(_LD.A, ("regfunc", 1)), (int, ("regfunc", 4)), (_LD.NT1, ("regfunc", 10)), (Union[int, str], ("regfunc", 8)),
+                       (_LD.NT2, ("reghook", None)), (Union[_LD.P, _LD.Q], ("reghook", None)), (Union[int, str], ("reghook", None))]
+            for t, (how, pid) in rng.sample(targets, 2):
+                d = rng.choice(["DUn", "DSt"])
+                kind = rng.choice(["list", "holder"])
+                if d == "DUn" and kind == "list" and not full:
+                    continue
+                x0 = r.do(("nested", 0, d, pool.tid(t), kind))          # warm: the container's hook is generated now
+                if x0 is not None:
+                    probes.append((("probe", 0, d, pool.tid(t), True), x0, len(r.history[0]), False))
+                hid = 800 + 10 * (ci % 20)
+                r.do(("regfunc", 0, d, pid, hid) if how == "regfunc" else ("reghook", 0, d, pool.tid(t), hid))
+                hist["regfunc" if how == "regfunc" else "reghook"] += 1
+                x = r.do(("nested", 0, d, pool.tid(t), kind))
+                if x is not None:
+                    hist["nested"] += 1
+                    hist["nested_after_predicate_registration"] = hist.get("nested_after_predicate_registration", 0) + 1
+                    probes.append((("probe", 0, d, pool.tid(t), True), x, len(r.history[0]), False))
         # oracle
         for (s, x, hlen, same_as_base) in probes:
             hist["probes"] += 1
